@@ -17,8 +17,8 @@ INT_FULL = sorted(set([0, 1, -1, 2, -2, 3, 7, 8, -8, 63, 64, -64, 127, 128, -128
 INT_QUICK = [0, 1, -1, 2, -3, 127, 128, -128, 255, 256, -256, 2 ** 63 - 1, 2 ** 63, -2 ** 64]
 MUTEZ_FULL = [0, 1, 2, 3, 1000000, 2 ** 31, 2 ** 32, 2 ** 62 - 1, 2 ** 62, 2 ** 62 + 1, 2 ** 63 - 2, 2 ** 63 - 1]
 MUTEZ_QUICK = [0, 1, 2, 2 ** 32, 2 ** 62, 2 ** 63 - 1]
-SHIFT_FULL = [0, 1, 7, 8, 9, 63, 64, 255, 256, 257, 1000, 64000, 64001]
-SHIFT_QUICK = [0, 1, 8, 255, 256, 257]
+SHIFT_FULL = [0, 1, 7, 8, 9, 15, 16, 17, 23, 24, 25, 31, 32, 33, 40, 47, 48, 63, 64, 65, 72, 127, 128, 255, 256, 257, 272, 300, 520, 1000, 64000, 64001]
+SHIFT_QUICK = [0, 1, 7, 8, 9, 16, 17, 24, 31, 32, 40, 47, 48, 255, 256, 257]
 BYTES_FULL = [b'', b'\x00', b'\x01', b'\x7f', b'\x80', b'\xff', b'\x00\x00', b'\x00\x80', b'\x00\xff', b'\x01\x00', b'\x7f\xff', b'\x80\x00',
               b'\xff\x00', b'\xff\x7f', b'\xff\x80', b'\xff\xff', b'\x00\x00\x01', b'\xff\xff\xfe', b'\x0f' * 9, b'\xf0' * 33]
 BYTES_QUICK = [b'', b'\x00', b'\x7f', b'\x80', b'\xff', b'\x00\x80', b'\xff\x7f', b'\xff\xff\xfe']
